@@ -88,6 +88,9 @@ def make_run(seed, i):
     # mutable class-level or process-level data would be overwritten by a neighbour
     same_doc = n >= 2 and rng.random() < 0.3
     shared_registry = same_doc and seeds.derive(seed, PROP, i, "registry", 0).random() < 0.5
+    if same_doc and not shared_nested and rng.random() < 0.5:
+        # threads that share a document differ in the unicode option: give the document names for which it matters
+        fixed = dict(fixed, key_styles=["unicode", "snake", "odd"])
     if shared_registry and not shared_nested:
         # every thread resolves unions of string pseudo-types (int-like next to float-like strings) through the
         # process-global default registry: the state in which lazily built registry data would be observed half-built
@@ -104,7 +107,7 @@ def make_run(seed, i):
                 fam = {"base": ["base", "dataclasses"], "dataclasses": ["base", "dataclasses"],
                        "pydantic": ["pydantic", "sqlmodel"], "sqlmodel": ["pydantic", "sqlmodel"], "attrs": ["attrs"]}
                 o["framework"] = vr.choice(fam[o["framework"]])
-            if vr.random() < 0.3:
+            if vr.random() < 0.5:
                 o["convert_unicode"] = not o["convert_unicode"]
             if vr.random() < 0.3:
                 o["structure"] = vr.choice(["flat", "nested"])
